@@ -477,6 +477,9 @@ func BuildTypeSystem(t *SType) (ts *schema.TypeSystem, err error) {
 // SchemaCfg tunes the type generator.
 type SchemaCfg struct {
 	MaxDepth int
+	// IntAboveInt64: let the mutator replace an integer in an Int slot by an unsigned value above MaxInt64 (callers that set
+	// it judge such inputs by the oracle alone: the model's integers are unbounded)
+	IntAboveInt64 bool
 	// rates (out of 100) of the three constructions known to misbehave in bindnode
 	NullableDispatchUnion int // a kinded / stringprefix union in a nullable slot
 	KindedIntEnum         int // an int-represented enum as member of a kinded union
@@ -1324,6 +1327,9 @@ func collectSites(t *SType, lvl string, nul bool, p *Val, sites *[]mutSite) {
 	case "enum":
 		kinds = append(kinds, "enum-unknown", "enum-alt", "enum-wrong-kind")
 	}
+	if v.K == 'i' && t != nil && t.K == "int" {
+		kinds = append(kinds, "int-above-int64") // drawn only where SchemaCfg.IntAboveInt64 is set
+	}
 	*sites = append(*sites, mutSite{p, t, nul, kinds})
 }
 
@@ -1378,6 +1384,11 @@ func applyMutation(s mutSite, kind, lvl string, r *Rand, cfg SchemaCfg) bool {
 	switch kind {
 	case "retype":
 		*v = otherKindVal(r, ValKind(*v))
+		return true
+	case "int-above-int64":
+		// an unsigned integer no int64 holds (it reaches the assembler as a datamodel.UintNode through AssignNode, or from
+		// the DAG-CBOR decoder): no Int slot of any schema accepts it.  Outside the Lean model's domain (unbounded integers).
+		*v = Val{K: 'i', Mag: []uint64{1 << 63, 1<<63 + 1, math.MaxUint64}[r.Intn(3)]}
 		return true
 	case "null":
 		*v = Null()
@@ -1777,6 +1788,9 @@ func MutateInput(t *SType, lvl string, v Val, r *Rand, cfg SchemaCfg) (Mutant, b
 		var kinds []string
 		for i, s := range sites {
 			for _, k := range s.kinds {
+				if k == "int-above-int64" && !cfg.IntAboveInt64 {
+					continue
+				}
 				if _, ok := byKind[k]; !ok {
 					kinds = append(kinds, k)
 				}
